@@ -489,6 +489,20 @@ def subunit_init(rng, T):
             spec["write_fault_once"] = {"n": spec["write_fault_once"]}
     if rng.random() < 0.4:
         spec["pre_delay"] = rng.choice([0.3, 1.0, 4.5])     # unsolicited reports can arrive before initialize() is called
+    if len(inits) == 1 and "version" not in dev and "silent_after" not in dev and not any(k.startswith("write_fault") for k in spec) and rng.random() < 0.15:
+        # the synchronisation reply comes, but only after initialize() has given up; the receiver goes on reporting values afterwards
+        nq = len(inits[0]["expect_queries"]) + 1
+        bound = 2.0 + 0.5 * nq
+        extra = bound + rng.choice([0.5, 2.0, 6.0])
+        dev["slow_cmd"] = {"cmd": "@SYS:VERSION=?", "extra": extra}
+        dev["latency"] = rng.choice([0.0, 0.02])
+        t = spec.get("pre_delay", 0) + 0.3 + 0.1 * nq + extra
+        fs = [x for x in c["fns"] if x["get"] and x["name"] not in ("VERSION", "MODELNAME")]
+        for _ in range(rng.randint(1, 3)):
+            t += rng.choice([0.05, 0.5])
+            f = rng.choice(fs)
+            dev["unsolicited"] = list(dev.get("unsolicited", [])) + [[round(t, 3), f"@{c['id']}:{f['name']}={_value_for(rng, T, f)}"]]
+        spec["settle"] = extra + 3.0
     return spec
 
 
